@@ -21,6 +21,8 @@ import (
 	"unsafe"
 
 	goom "github.com/tencent/goom"
+	repoa "github.com/tencent/goom/internal/zzverif/c03exec/a"
+	repob "github.com/tencent/goom/internal/zzverif/c03exec/b"
 	"github.com/tencent/goom/internal/zzverif/vh"
 )
 
@@ -117,7 +119,31 @@ func Mixed(a int, s string, b int) (int, string) { return a*b + len(s), s + fmt.
 //go:noinline
 func Tiny() {} // shorter than the jump: must be refused
 
+//go:noinline
+func Mul4(a, b, c, d int) int { return a * b * c * d } // IMULQ;IMULQ;IMULQ;RET: an instruction boundary at 12, the next at 13
+
+//go:noinline
+func Big2() int { // 1 KiB frame
+	var a [1000]byte
+	for i := range a {
+		a[i] = byte(i)
+	}
+	return int(a[77]) + int(a[900])
+}
+
+//go:noinline
+func ByName(n int) int { return 3*n + len(fmt.Sprint(n)) }
+
+type Acc struct{ v int }
+
+//go:noinline
+func (a *Acc) Add(n int) int { return a.v + n + len(fmt.Sprint(n)) }
+
 type kase struct {
+	fns       []interface{} // the mocked functions (entry bytes are snapshotted; stack check detected from the code)
+	prepare   func()        // runs before the reference result is taken
+	recursive bool
+	extra     func() string // additional canonical facts appended to the observation
 	expect        int // callback runs per call (recursive functions re-enter the mock on purpose); 0 means 1
 	hasStackCheck bool
 	// install mocks with origin; returns call (canonical result string), reset
@@ -133,7 +159,7 @@ func phInt() int {
 }
 
 func mk0(f func() int, stack bool) kase {
-	return kase{hasStackCheck: stack, plain: func() string { return fmt.Sprint(f()) },
+	return kase{fns: []interface{}{f}, hasStackCheck: stack, plain: func() string { return fmt.Sprint(f()) },
 		install: func(cnt *int32) (func() string, interface{}, func()) {
 			origin := func() int {
 				fmt.Println("only for placeholder, will not call")
@@ -151,7 +177,7 @@ func mk0(f func() int, stack bool) kase {
 }
 
 func mk1(f func(int) int, arg int, stack bool) kase {
-	return kase{hasStackCheck: stack, plain: func() string { return fmt.Sprint(f(arg)) },
+	return kase{fns: []interface{}{f}, hasStackCheck: stack, plain: func() string { return fmt.Sprint(f(arg)) },
 		install: func(cnt *int32) (func() string, interface{}, func()) {
 			origin := func(n int) int {
 				fmt.Println("only for placeholder, will not call", n)
@@ -168,7 +194,7 @@ func mk1(f func(int) int, arg int, stack bool) kase {
 		}}
 }
 
-func withExpect(k kase, n int) kase { k.expect = n; return k }
+func withExpect(k kase, n int) kase { k.expect = n; k.recursive = true; return k }
 
 func ph0() func() int {
 	return func() int {
@@ -242,7 +268,11 @@ func multi0(stack bool, fs ...func() int) kase {
 		}
 		return r
 	}
-	return kase{hasStackCheck: stack, expect: 2 * len(fs), plain: plain,
+	var tg []interface{}
+	for _, f := range fs {
+		tg = append(tg, f)
+	}
+	return kase{fns: tg, hasStackCheck: stack, expect: 2 * len(fs), plain: plain,
 		install: func(cnt *int32) (func() string, interface{}, func()) {
 			m := goom.Create()
 			origins := make([]func() int, len(fs))
@@ -282,7 +312,11 @@ func multi1(stack bool, arg int, fs ...func(int) int) kase {
 		}
 		return r
 	}
-	return kase{hasStackCheck: stack, expect: 2 * len(fs), plain: plain,
+	var tg []interface{}
+	for _, f := range fs {
+		tg = append(tg, f)
+	}
+	return kase{fns: tg, hasStackCheck: stack, expect: 2 * len(fs), plain: plain,
 		install: func(cnt *int32) (func() string, interface{}, func()) {
 			m := goom.Create()
 			origins := make([]func(int) int, len(fs))
@@ -316,7 +350,7 @@ func multi1(stack bool, arg int, fs ...func(int) int) kase {
 // the function is mocked (plain callback, no placeholder) and, while that mock is still applied, mocked again with an
 // origin placeholder — by the same builder or by another one; the placeholder has to run the real function
 func remock1(f func(int) int, arg int, stack, sameBuilder bool) kase {
-	return kase{hasStackCheck: stack, plain: func() string { return fmt.Sprint(f(arg)) },
+	return kase{fns: []interface{}{f}, hasStackCheck: stack, plain: func() string { return fmt.Sprint(f(arg)) },
 		install: func(cnt *int32) (func() string, interface{}, func()) {
 			m1 := goom.Create()
 			m1.Func(f).Apply(func(n int) int { return -777 })
@@ -343,7 +377,111 @@ var zoo = map[string]kase{
 	"TwinLeafG": multi0(false, Leaf, G), "TripleLeafGLoad": multi0(false, Leaf, G, Load), "TwinS2S3": multi0(true, S2, S3),
 	"TwinSqCube": multi1(false, 9, Sq, Cube), "TwinDblSq": multi1(true, 7, Dbl, Sq),
 	"RemockSq": remock1(Sq, 9, false, false), "RemockDbl": remock1(Dbl, 7, true, false), "RemockSameBuilderCube": remock1(Cube, 5, false, true),
-	"Mixed": {hasStackCheck: true, plain: func() string { a, s := Mixed(3, "ab", 5); return fmt.Sprint(a, s) },
+	"Big2": mk0(Big2, true),
+	"Mul4": {fns: []interface{}{Mul4}, plain: func() string { return fmt.Sprint(Mul4(3, 5, 7, 11)) },
+		install: func(cnt *int32) (func() string, interface{}, func()) {
+			origin := func(a, b, c, d int) int {
+				fmt.Println("only for placeholder, will not call", a, b, c, d)
+				fmt.Println("only for placeholder, will not call", a, b, c, d)
+				return 0
+			}
+			m := goom.Create()
+			m.Func(Mul4).Origin(&origin).Apply(func(a, b, c, d int) int {
+				atomic.AddInt32(cnt, 1)
+				return origin(a, b, c, d)
+			})
+			return func() string { return fmt.Sprint(Mul4(3, 5, 7, 11)) }, Mul4, func() { m.Reset() }
+		}},
+	"ByName": {fns: []interface{}{ByName}, plain: func() string { return fmt.Sprint(ByName(14)) },
+		install: func(cnt *int32) (func() string, interface{}, func()) {
+			origin := ph1s[2]
+			m := goom.Create()
+			m.ExportFunc("github.com/tencent/goom/internal/zzverif/c03exec.ByName").Origin(&origin).Apply(func(n int) int {
+				atomic.AddInt32(cnt, 1)
+				return origin(n)
+			})
+			return func() string { return fmt.Sprint(ByName(14)) }, ByName, func() { m.Reset() }
+		}},
+	"Method": {fns: []interface{}{(*Acc).Add}, plain: func() string { return fmt.Sprint((&Acc{v: 30}).Add(12)) },
+		install: func(cnt *int32) (func() string, interface{}, func()) {
+			origin := func(a *Acc, n int) int {
+				fmt.Println("only for placeholder, will not call", a, n)
+				fmt.Println("only for placeholder, will not call", a, n)
+				fmt.Println("only for placeholder, will not call", a, n)
+				return 0
+			}
+			m := goom.Create()
+			m.Struct(&Acc{}).Method("Add").Origin(&origin).Apply(func(a *Acc, n int) int {
+				atomic.AddInt32(cnt, 1)
+				return origin(a, n)
+			})
+			return func() string { return fmt.Sprint((&Acc{v: 30}).Add(12)) }, (*Acc).Add, func() { m.Reset() }
+		}},
+	// methods of two DIFFERENT types with the same package base name and type name, mocked one after the other (the first
+	// one reset) and then both at once, each with its own placeholder
+	"MethodTwinTypes": {fns: []interface{}{(*repoa.Repo).Load, (*repob.Repo).Load}, expect: 4,
+		plain: func() string { return fmt.Sprint((&repoa.Repo{Base: 3}).Load(5), ";", (&repob.Repo{Base: 3}).Load(5), ";") },
+		prepare: func() {
+			// history: a's method was mocked (with origin) and reset before
+			o := func(r *repoa.Repo, id int) int {
+				fmt.Println("only for placeholder, will not call", r, id, 0)
+				fmt.Println("only for placeholder, will not call", r, id, 0)
+				fmt.Println("only for placeholder, will not call", r, id, 0)
+				return 0
+			}
+			m := goom.Create()
+			m.Struct(&repoa.Repo{}).Method("Load").Origin(&o).Apply(func(r *repoa.Repo, id int) int { return o(r, id) })
+			(&repoa.Repo{Base: 1}).Load(1)
+			m.Reset()
+		},
+		install: func(cnt *int32) (func() string, interface{}, func()) {
+			oa := func(r *repoa.Repo, id int) int {
+				fmt.Println("only for placeholder, will not call", r, id, 1)
+				fmt.Println("only for placeholder, will not call", r, id, 1)
+				fmt.Println("only for placeholder, will not call", r, id, 1)
+				return 0
+			}
+			ob := func(r *repob.Repo, id int) int {
+				fmt.Println("only for placeholder, will not call", r, id, 2)
+				fmt.Println("only for placeholder, will not call", r, id, 2)
+				fmt.Println("only for placeholder, will not call", r, id, 2)
+				return 0
+			}
+			m := goom.Create()
+			m.Struct(&repob.Repo{}).Method("Load").Origin(&ob).Apply(func(r *repob.Repo, id int) int {
+				atomic.AddInt32(cnt, 1)
+				return ob(r, id)
+			})
+			m.Struct(&repoa.Repo{}).Method("Load").Origin(&oa).Apply(func(r *repoa.Repo, id int) int {
+				atomic.AddInt32(cnt, 1)
+				return oa(r, id)
+			})
+			ra, rb := &repoa.Repo{Base: 3}, &repob.Repo{Base: 3}
+			call := func() string {
+				r := fmt.Sprint(ra.Load(5), ";", rb.Load(5), ";")
+				atomic.AddInt32(cnt, 2)
+				d := fmt.Sprint(oa(ra, 5), ";", ob(rb, 5), ";")
+				if d != r {
+					return "direct:" + d + " via-mock:" + r
+				}
+				return r
+			}
+			return call, (*repoa.Repo).Load, func() { m.Reset() }
+		}},
+	// a second mock of a still-mocked function fails inside fixOrigin (CmpX starts with a short JNE that cannot be widened):
+	// the function must keep behaving as before the failed apply
+	"RemockRefused": {fns: []interface{}{CmpX}, plain: func() string { return fmt.Sprint(CmpX()) },
+		prepare: func() { goom.Create().Func(CmpX).Apply(func() int { return -777 }) },
+		install: func(cnt *int32) (func() string, interface{}, func()) {
+			origin := ph0s[2]
+			m := goom.Create()
+			m.Func(CmpX).Origin(&origin).Apply(func() int {
+				atomic.AddInt32(cnt, 1)
+				return origin()
+			})
+			return func() string { return fmt.Sprint(CmpX()) }, CmpX, func() { m.Reset() }
+		}},
+	"Mixed": {fns: []interface{}{Mixed}, hasStackCheck: true, plain: func() string { a, s := Mixed(3, "ab", 5); return fmt.Sprint(a, s) },
 		install: func(cnt *int32) (func() string, interface{}, func()) {
 			origin := func(a int, s string, b int) (int, string) {
 				fmt.Println("only for placeholder, will not call", a, s, b)
@@ -358,7 +496,7 @@ var zoo = map[string]kase{
 			})
 			return func() string { a, s := Mixed(3, "ab", 5); return fmt.Sprint(a, s) }, Mixed, func() { m.Reset() }
 		}},
-	"Tiny": {plain: func() string { Tiny(); return "-" },
+	"Tiny": {fns: []interface{}{Tiny}, plain: func() string { Tiny(); return "-" },
 		install: func(cnt *int32) (func() string, interface{}, func()) {
 			origin := func() {
 				fmt.Println("only for placeholder, will not call")
@@ -394,9 +532,22 @@ func child(name string, maxDepth, step int) string {
 	if !ok {
 		return "bad-op"
 	}
+	if k.prepare != nil {
+		k.prepare()
+	}
 	want := k.plain()
 	if name == "SetX" {
 		X = 5
+	}
+	// facts read from the code itself: entry bytes, and whether the prologue has a stack check (CMPQ SP|R12, 16(R14))
+	stack := false
+	var snaps [][]byte
+	for _, f := range k.fns {
+		c := code(f, 48)
+		snaps = append(snaps, c)
+		if strings.Contains(string(c[:32]), "\x3b\x66\x10") {
+			stack = true
+		}
 	}
 	var cnt int32
 	var target interface{}
@@ -415,11 +566,25 @@ func child(name string, maxDepth, step int) string {
 	if refused != "" {
 		// nothing may have changed: the function still behaves as before
 		clean := k.plain() == want && atomic.LoadInt32(&cnt) == 0
-		return fmt.Sprintf("%s clean=%v", refused, clean)
+		for j, f := range k.fns {
+			if string(code(f, 48)) != string(snaps[j]) {
+				clean = false
+			}
+		}
+		ef := ""
+		if k.extra != nil {
+			ef = " " + k.extra()
+		}
+		return fmt.Sprintf("%s%s clean=%v", refused, ef, clean)
 	}
 	_ = before
+	extraFacts := ""
+	if k.extra != nil {
+		extraFacts = " " + k.extra()
+	}
 	calls, wrong, twice, zero, first := 0, 0, 0, 0, "-"
 	firstWrong := ""
+	over := 0
 	for d := 0; d <= maxDepth; d += step {
 		done := make(chan [2]string, 1)
 		go func(d int) {
@@ -451,6 +616,11 @@ func child(name string, maxDepth, step int) string {
 		} else if r[1] != fmt.Sprint(exp) {
 			twice++
 			bad = true
+			var c int
+			fmt.Sscan(r[1], &c)
+			if c-exp > over {
+				over = c - exp
+			}
 		}
 		if bad && first == "-" {
 			first = fmt.Sprint(d)
@@ -459,7 +629,13 @@ func child(name string, maxDepth, step int) string {
 	pre := code(target, 13)
 	reset()
 	post := code(target, 13)
-	restored := string(pre) != string(post) && k.plain() == want
+	_, _ = pre, post
+	restored := k.plain() == want
+	for j, f := range k.fns {
+		if string(code(f, 48)) != string(snaps[j]) {
+			restored = false
+		}
+	}
 	cntAfter := atomic.LoadInt32(&cnt)
 	atomic.StoreInt32(&cnt, 0)
 	k.plain()
@@ -467,7 +643,7 @@ func child(name string, maxDepth, step int) string {
 		restored = false
 	}
 	_ = cntAfter
-	return fmt.Sprintf("applied calls=%d wrong=%d cbtwice=%d cbzero=%d first=%s restored=%v%s", calls, wrong, twice, zero, first, restored, strings.ReplaceAll(firstWrong, ";", ","))
+	return fmt.Sprintf("applied calls=%d wrong=%d cbtwice=%d cbzero=%d first=%s restored=%v stack=%v over=%d%s%s", calls, wrong, twice, zero, first, restored, stack, over, extraFacts, strings.ReplaceAll(firstWrong, ";", ","))
 }
 
 // TestVerifC03Exec is parent and child.
@@ -499,31 +675,48 @@ func TestVerifC03Exec(t *testing.T) {
 		go func(j int) {
 			sem <- struct{}{}
 			defer func() { <-sem; doneAll <- j }()
-			tmp := fmt.Sprintf("%s.child%d", os.Getenv("VERIF_OUT"), j)
-			os.Remove(tmp)
-			ctx, cancel := context.WithTimeout(context.Background(), 60*time.Second)
-			defer cancel()
-			cmd := exec.CommandContext(ctx, os.Args[0], "-test.run", "^TestVerifC03Exec$", "-test.count=1")
-			cmd.Env = append(os.Environ(), "VERIF_C03_CHILD="+jobs[j].spec, "VERIF_C03_CHILD_OUT="+tmp)
-			outb, err := cmd.CombinedOutput()
-			b, rerr := os.ReadFile(tmp)
-			os.Remove(tmp)
-			switch {
-			case rerr == nil && len(b) > 0:
-				res[j] = string(b)
-			case ctx.Err() != nil:
-				res[j] = "timeout"
-			default:
+			runOnce := func(limit time.Duration) string {
+				tmp := fmt.Sprintf("%s.child%d", os.Getenv("VERIF_OUT"), j)
+				os.Remove(tmp)
+				ctx, cancel := context.WithTimeout(context.Background(), limit)
+				defer cancel()
+				cmd := exec.CommandContext(ctx, os.Args[0], "-test.run", "^TestVerifC03Exec$", "-test.count=1")
+				var env []string
+				for _, e := range os.Environ() { // scrub goom / runtime knobs that change what the children do
+					if strings.HasPrefix(e, "GOOM_") || strings.HasPrefix(e, "GODEBUG=") || strings.HasPrefix(e, "GOGC=") || strings.HasPrefix(e, "GOMAXPROCS=") {
+						continue
+					}
+					env = append(env, e)
+				}
+				cmd.Env = append(env, "VERIF_C03_CHILD="+jobs[j].spec, "VERIF_C03_CHILD_OUT="+tmp)
+				outb, _ := cmd.CombinedOutput()
+				b, rerr := os.ReadFile(tmp)
+				os.Remove(tmp)
+				switch {
+				case rerr == nil && len(b) > 0:
+					return string(b)
+				case ctx.Err() != nil:
+					return "timeout"
+				}
 				cls := "exit"
-				s := string(outb)
 				for _, sig := range []string{"SIGSEGV", "SIGTRAP", "SIGILL", "SIGBUS", "SIGFPE", "fatal error", "unexpected return pc", "panic"} {
-					if strings.Contains(s, sig) {
+					if strings.Contains(string(outb), sig) {
 						cls = strings.ReplaceAll(sig, " ", "-")
 						break
 					}
 				}
-				_ = err
-				res[j] = "crash:" + cls
+				return "crash:" + cls
+			}
+			// typical wall time of a child is < 1 s; a timeout or a crash is re-run once before anything is reported: a crash
+			// that reproduces is reported, a timeout that does not reproduce is not
+			res[j] = runOnce(120 * time.Second)
+			if res[j] == "timeout" || strings.HasPrefix(res[j], "crash:") {
+				second := runOnce(300 * time.Second)
+				if second == "timeout" || strings.HasPrefix(second, "crash:") {
+					res[j] = second
+				} else {
+					res[j] = second + " retried-after=" + res[j]
+				}
 			}
 		}(j)
 	}
